@@ -222,21 +222,21 @@ Proof. intro instant. destruct instant; split; reflexivity. Qed.
 Lemma retain_spec : forall bs m m' r,
   retain m bs = (m', r) ->
   (forall b, In b r -> In b bs)
-  /\ (forall x, m x <> None -> In x (ids bs) -> exists b, In b r /\ b_id b = x)
+  /\ (forall x, m x <> None -> In x (ids bs) -> exists b, In b r /\ b_key b = x)
   /\ (forall x, ~ In x (ids bs) -> m' x = m x).
 Proof.
   induction bs as [|b tl IH]; intros m m' r H; cbn [retain] in H.
   - inv H. split; [intros b []|]. split; [intros x _ []|reflexivity].
-  - destruct (m (b_id b)) as [c|] eqn:Eb.
-    + destruct (retain (del m (b_id b)) tl) as [m1 r1] eqn:R. inv H. destruct (IH _ _ _ R) as [A [B C]].
+  - destruct (m (b_key b)) as [c|] eqn:Eb.
+    + destruct (retain (del m (b_key b)) tl) as [m1 r1] eqn:R. inv H. destruct (IH _ _ _ R) as [A [B C]].
       split; [intros q [Hq|Hq]; [left; exact Hq|right; apply A; exact Hq]|].
       split.
-      * intros x Hx Hin. destruct (N.eq_dec x (b_id b)) as [->|Ne]; [exists b; split; [left|]; reflexivity|].
+      * intros x Hx Hin. destruct (N.eq_dec x (b_key b)) as [->|Ne]; [exists b; split; [left|]; reflexivity|].
         destruct Hin as [Hin|Hin]; [congruence|].
         destruct (B x) as [q [Hq Eq]]; [unfold del; apply N.eqb_neq in Ne; rewrite Ne; exact Hx|exact Hin|].
         exists q. split; [right; exact Hq|exact Eq].
       * intros x Hx. rewrite C by (intro K; apply Hx; right; exact K). unfold del.
-        destruct (x =? b_id b) eqn:E; [|reflexivity]. apply N.eqb_eq in E. exfalso. apply Hx. left. symmetry. exact E.
+        destruct (x =? b_key b) eqn:E; [|reflexivity]. apply N.eqb_eq in E. exfalso. apply Hx. left. symmetry. exact E.
     + destruct (IH _ _ _ H) as [A [B C]].
       split; [intros q Hq; right; apply A; exact Hq|].
       split.
@@ -260,7 +260,7 @@ Qed.
 
 Lemma repack_inputs_covers : forall ps m x,
   m x <> None -> (exists p, In p ps /\ exec_repacks (pp_todo p) = true /\ In x (ids (pp_blobs p))) ->
-  exists t src b, In (t, (src, b)) (repack_inputs m ps) /\ b_id b = x.
+  exists t src b, In (t, (src, b)) (repack_inputs m ps) /\ b_key b = x.
 Proof.
   induction ps as [|p tl IH]; intros m x Hx [q [Hq [Eq Hin]]]; [destruct Hq|].
   cbn [repack_inputs]. destruct (exec_repacks (pp_todo p)) eqn:E.
